@@ -235,7 +235,7 @@ Definition enc_drop (d : drop) : row :=
   ++ (match width d with Some w => [("interface_width"%string, FS w)] | None => [] end)
   ++ (if has_ampl (cls d) then [("amplitudes"%string, FA (ampl d))] else []).
 
-(* keyword parameters of the constructors *)
+(* keyword arguments accepted by the constructors *)
 Definition ctor_params (c : dclass) : list string :=
   ["position"%string; "radius"%string]
   ++ (if has_width c then ["interface_width"%string] else [])
